@@ -319,7 +319,7 @@ impl Gen {
             10 => {
                 // ---- injected submission failure on the next transfer-producing op
                 let idx = rng.below(2) as u32;
-                let mut ops = vec![Op::Fault { idx }];
+                let mut ops = vec![if rng.chance(1, 3) { Op::FaultNoData { idx } } else { Op::Fault { idx } }];
                 match rng.below(3) {
                     0 => {
                         let u = self.any_user(sc);
